@@ -44,11 +44,12 @@ def ensure_cxx2c():
 
 class Unit:
     """A set of root functions of one translation unit of /repo (or of a driver TU that only instantiates templates)."""
-    def __init__(self, name, tu, roots=(), prefixes=(), mangled=(), outline=(), transparent=('std::basic_string_view', 'std::pair'), names=None, catalogue=False, transparent_fn=('std::equal_to', 'std::basic_string_view<char8_t>::basic_string_view', 'std::basic_string_view<char8_t>::empty', 'std::basic_string_view<char8_t>::data', 'std::basic_string_view<char8_t>::length', 'std::basic_string_view<char8_t>::size', 'std::pair<')):
+    def __init__(self, name, tu, roots=(), prefixes=(), mangled=(), outline=(), transparent=('std::basic_string_view', 'std::pair'), names=None, catalogue=False, vroots=(), transparent_fn=('std::equal_to', 'std::basic_string_view<char8_t>::basic_string_view', 'std::basic_string_view<char8_t>::empty', 'std::basic_string_view<char8_t>::data', 'std::basic_string_view<char8_t>::length', 'std::basic_string_view<char8_t>::size', 'std::pair<')):
         self.name, self.tu, self.roots, self.prefixes, self.mangled = name, tu, list(roots), list(prefixes), list(mangled)
         self.outline, self.transparent, self.names, self.catalogue = list(outline), list(transparent), dict(names or {}), catalogue
         self.c = self.json = None
         self.transparent_fn = list(transparent_fn)
+        self.vroots = list(vroots)
         self.std = {}
 
     def lower(self, workdir):
@@ -60,7 +61,7 @@ class Unit:
         j = os.path.join(workdir, self.name + '.json')
         cmd = [CXX2C, tu, '--out=' + c, '--json=' + j]
         cmd += ['--root=' + r for r in self.roots] + ['--root-prefix=' + r for r in self.prefixes] + ['--root-mangled=' + r for r in self.mangled]
-        cmd += ['--outline=%s#%d' % (f, k) for f, k in self.outline] + ['--transparent-std-record=' + t for t in self.transparent] + ['--transparent-std-fn=' + t for t in self.transparent_fn]
+        cmd += ['--outline=%s#%d' % (f, k) for f, k in self.outline] + ['--transparent-std-record=' + t for t in self.transparent] + ['--transparent-std-fn=' + t for t in self.transparent_fn] + ['--virtual-root=' + v for v in self.vroots]
         if self.catalogue:
             cmd.append('--catalogue')
         cmd += ['--'] + CLANG_ARGS
@@ -89,6 +90,13 @@ class Unit:
     def resolve_text(self, text):
         def sub(m):
             key = m.group(1)
+            if key.startswith('vcall:'):      # the generated dynamic dispatcher of a virtual method
+                return '__virt_' + self.resolve_virt(key[6:])
+            if key.startswith('enum:'):       # value of an enumerator of /repo, e.g. @{enum:ipr::Category_code::Qualified}
+                hits = [e['value'] for e in self.json.get('enums', []) if e['name'] == key[5:]]
+                if len(hits) != 1:
+                    raise Undecided('MUST-FIRE: enumerator %s not found' % key[5:])
+                return str(hits[0])
             if key.startswith('virt:'):
                 return '__virt_' + self.resolve_virt(key[5:]) + '__ext'
             if key in getattr(self, 'std', {}):
@@ -102,7 +110,7 @@ class Unit:
                     raise Undecided('MUST-FIRE: std stub %s (%s) is not called by the lowered code of unit %s' % (key, n, self.name))
                 return n
             return self.resolve_name(key)
-        return re.sub(r'@\{([A-Za-z0-9_:.]+)\}', sub, text)
+        return re.sub(r'@\{([A-Za-z0-9_:.<>]+)\}', sub, text)
 
     def resolve_virt(self, short):
         sel = self.names.get(short)
@@ -162,6 +170,13 @@ def trace_values(trace):
     return vals
 
 
+def _safe(u, k):
+    try:
+        u.resolve_text('@{%s}' % k); return True
+    except Undecided:
+        return False
+
+
 def run_ob(ob, workdir, keep=False):
     """returns dict(status=pass|fail|undecided, ...)"""
     t0 = time.time()
@@ -175,6 +190,10 @@ def run_ob(ob, workdir, keep=False):
         for cfile in ob.contracts:
             src += '/* ---- contracts: %s */\n' % cfile + u.resolve_text(open(os.path.join(VERIF, 'contracts', cfile)).read()) + '\n'
         src += '#include "%s"\n' % u.c
+        import stdmodels
+        am, used = stdmodels.auto_models(u.json, skip=[u.resolve_text('@{%s}' % k) for k in getattr(u, 'std', {}) if True and _safe(u, k)])
+        src += '/* ---- generated std models */\n' + am
+        res['std_models'] = used
         src += '/* ---- harness: %s */\n' % ob.harness + u.resolve_text(open(os.path.join(VERIF, 'harness', ob.harness)).read()) + '\n'
         cpath = os.path.join(d, 'ob.c')
         open(cpath, 'w').write(src)
